@@ -66,7 +66,13 @@ def gen_cases(ctx):
                         return [("n", 0, float(r.choice([1, 2, 3, 2]))) for _ in range(n)]
                     cnt = grid(len(cnt))
                     hist_ = grid(len(hist))
-                ops = [new_op(0, ind, pr), new_op(2, ind, other), new_op(3, ind, pr), new_op(4, ind, pr)] + hist_ + [("c", 0, 1)]
+                ops = [new_op(0, ind, pr), new_op(2, ind, other), new_op(3, ind, pr), new_op(4, ind, pr)]
+                if mi % 3 == 1:
+                    # the clone target already exists (same parameters, another fill state): the harness then goes through
+                    # Clone::clone_from, which an implementation may specialise (reuse of the window allocation)
+                    pre = feed(r, ind, r.choice([0, 1, p + 1]), slot=1)
+                    ops += [new_op(1, ind, pr)] + pre
+                ops += hist_ + [("c", 0, 1)]
                 # slot 4: same parameters, a different history drawn from a small grid (so that windows of different
                 # instances often share sums / extrema); compared below with a solo run of the same stream
                 twin = [("b", 4) + b for b in bar_stream(r, len(m) + 2, "grid")] if ind in NO_SCALAR else \
@@ -154,6 +160,8 @@ def check_impl(ctx, cases):
         if c.meta.get("fam") == "S":
             continue
         a, b, d = outs_of(c, 0), outs_of(c, 1), outs_of(c, 3)
+        ci = c.ops.index(("c", 0, 1))
+        b = [(i, o) for (i, o) in b if i > ci]      # slot 1 may have existed (and been fed) before it received the clone
         na = len(a) - len(b)       # history length
         for k in range(len(b)):
             if a[na + k][1] != b[k][1]:
